@@ -10,7 +10,7 @@ for d in sorted(glob.glob(os.path.join(V, "seeded", "*"))):
     own = m["breaks_property"]
     how = det.get(own, "")
     stage = re.search(r"stage=(\S+)", how)
-    rows.append("| %s | %s | %s | %s | %s |" % (m["id"], own, what, ("yes (%s)" % stage.group(1)) if own in det else "NO", ", ".join(k for k in det if k != own) or "-"))
+    rows.append("| %s | %s | %s | %s | %s |" % (m["id"], own, what, ("yes (%s)" % (stage.group(1) if stage else "see meta.json")) if m.get("owning_property_check_fires", own in det) else "NO (see meta.json)", ", ".join(k for k in det if k != own) or "-"))
 table = "\n".join(rows)
 p = os.path.join(V, "DESIGN.md")
 s = open(p).read()
